@@ -11,7 +11,7 @@ from .c16 import marks_from_profile
 ID = "C15"
 LEVEL = "model_checking"
 BOUNDS = {
-    "quick": "ISI: two trains with 0..3 spikes (n1+n2<=5); SPIKE-Sync: 0..3 spikes (n1+n2<=4), max_tau None/symbolic; "
+    "quick": "ISI: two trains with 0..3 spikes (n1+n2<=5); SPIKE-Sync: 0..3 spikes (n1+n2<=3; 4 for py with max_tau=None), max_tau None/symbolic; "
              "SPIKE (plain and RI): 'MRTS=0 equals omitted' and the no-op region for 0..2 spikes, monotonicity for "
              "n1+n2 <= 3 (RI) / <= 2 (plain); symbolic 0 <= m1 <= m2; 'auto': 15 entry points on 2 trains with 0..2 spikes "
              "(n1+n2<=3) and 3 trains with <= 1 spike; py and pyx",
@@ -41,6 +41,8 @@ def configs(tier):
                                cost=5 ** (n1 + n2), split_forks=(8 if n1 + n2 >= 5 else None))
                 if n1 + n2 <= (4 if q else 5):
                     for mt in ("none", "pos"):
+                        if q and n1 + n2 > 3 and (mt == "pos" or be == "pyx"):
+                            continue
                         yield dict(name="sync-%s-mt%s-%d+%d" % (be, mt, n1, n2), what="sync", backend=be, mt=mt,
                                    n1=n1, n2=n2, cost=8 ** (n1 + n2), split_forks=(8 if n1 + n2 >= 4 else None))
                 if max(n1, n2) <= 2:
@@ -63,18 +65,17 @@ def configs(tier):
 
 
 def controls(tier):
-    yield dict(name="control-auto-pair-vs-list", what="auto", backend="py", fn="isi_distance", ns=[1, 1, 1],
+    yield dict(name="control-auto-pair-vs-list", what="auto", backend="py", fn="isi_profile", ns=[1, 1, 1],
                mutations=[("pyspike.generic",
-                           "    MRTS, RI = resolve_keywords(**kwargs)\n    if isinstance(MRTS, str):\n        kwargs['MRTS'] = default_thresh(spike_trains)\n    \n    if indices is None:",
-                           "    MRTS, RI = resolve_keywords(**kwargs)\n    if isinstance(MRTS, str):\n        kwargs['MRTS'] = default_thresh(spike_trains[:2])\n    \n    if indices is None:")])
-    yield dict(name="control-isi-mrts-floor", what="isi", backend="py", n1=1, n2=1,
-               mutations=[("pyspike.cython.python_backend",
-                           "    isi_values[0] = abs(nu1 - nu2) / max([nu1, nu2, MRTS])",
-                           "    isi_values[0] = abs(nu1 - nu2) / max([nu1, nu2])")])
+                           "        kwargs['MRTS'] = default_thresh(spike_trains if indices is None\n"
+                           "                                        else [spike_trains[i] for i in indices])",
+                           "        kwargs['MRTS'] = default_thresh(spike_trains[:2])")])
+    yield dict(name="control-default-mrts", what="isi", backend="py", n1=1, n2=1,
+               mutations=[("pyspike.generic", "        MRTS = 0.  # default", "        MRTS = 1.  # default")])
     yield dict(name="control-edge-interval", what="auto", backend="py", fn="isi_profile", ns=[2, 1],
                mutations=[("pyspike.isi_lengths",
-                           "        del_end = max(t_end - spike_times[-1], spike_times[-1] - spike_times[-2])\\\n                         if N > 1 else t_end - spike_times[0]",
-                           "        del_end = t_end - spike_times[-1]")])
+                           "        isi_lengths.append(max(t_end - spike_times[-1], dels[-1]))",
+                           "        isi_lengths.append(t_end - spike_times[-1])")])
 
 
 def pooled_isis(S, ts, te):
